@@ -14,7 +14,7 @@ for b in "$@"; do
     esac
     git add "$f"
   done
-  git commit -q --no-edit -m "merge $b" 2>/dev/null
+  git commit -q --no-edit -m "merge $b" >/dev/null 2>&1
   echo "$b: merged $n commits"
 done
 python3 harness/mkdriver.py >/dev/null && python3 harness/mkmanifest.py
